@@ -11,10 +11,14 @@ pub fn compute_twiddle<T: FftNum>(
     let constant = -2f64 * std::f64::consts::PI / fft_len as f64;
     let angle = constant * index as f64;
 
+    #[cfg(rustfft_verif)]
+    crate::verif_hooks::twiddle_enter(index, fft_len);
     let result = Complex {
         re: T::from_f64(angle.cos()).unwrap(),
         im: T::from_f64(angle.sin()).unwrap(),
     };
+    #[cfg(rustfft_verif)]
+    crate::verif_hooks::twiddle_exit();
 
     match direction {
         FftDirection::Forward => result,
